@@ -30,14 +30,17 @@ Proof.
 Qed.
 
 (** ** rational bookkeeping *)
-Lemma qsum_acc_compat a b : Forall2 Qeq a b -> forall x y, (x == y)%Q -> (fold_left Qplus a x == fold_left Qplus b y)%Q.
+Lemma qadd_correct a b : (qadd a b == a + b)%Q.
+Proof. unfold qadd. apply Qred_correct. Qed.
+Lemma qsum_acc_compat a b : Forall2 Qeq a b -> forall x y, (x == y)%Q -> (fold_left qadd a x == fold_left qadd b y)%Q.
 Proof.
-  induction 1 as [|p q a b Hpq H IH]; intros x y E; cbn [fold_left]; [exact E|]. apply IH. rewrite E, Hpq. reflexivity.
+  induction 1 as [|p q a b Hpq H IH]; intros x y E; cbn [fold_left]; [exact E|]. apply IH.
+  rewrite !qadd_correct, E, Hpq. reflexivity.
 Qed.
 Lemma qsum_compat a b : Forall2 Qeq a b -> (qsum a == qsum b)%Q.
 Proof. intro H. unfold qsum. apply qsum_acc_compat; [exact H|reflexivity]. Qed.
 Lemma qsum_one v : (qsum [v] == v)%Q.
-Proof. unfold qsum. cbn [fold_left]. ring. Qed.
+Proof. unfold qsum. cbn [fold_left]. rewrite qadd_correct. ring. Qed.
 
 Lemma Forall2_Qeq_map_one r l : (r == 1)%Q -> Forall2 Qeq (map (fun x => (x * r)%Q) l) l.
 Proof.
